@@ -164,7 +164,9 @@ func (c *seqCase) judge(snap *core.VerifPoolSnapshot, at *block, quiescent bool,
 	// a hole at a nonce that had already been mined on an earlier head is the reorg re-injection
 	// finding; any other hole keeps the generic fingerprint
 	for i := range fs {
-		if fs[i].FP == "C19/pending-noncontiguous" && fs[i].Acct >= 0 && fs[i].Gap < c.e.chain.maxNonce(fs[i].Acct) {
+		// (a hole in the MIDDLE of the list only: a list that starts above the state nonce is the
+		// gap-in-front case the pool repairs by postponing the list, never the finding)
+		if fs[i].FP == "C19/pending-noncontiguous" && fs[i].Acct >= 0 && fs[i].Gap < c.e.chain.maxNonce(fs[i].Acct) && fs[i].Gap > at.st[fs[i].Acct].Nonce {
 			fs[i].FP = FPReorgGap
 			fs[i].Msg += fmt.Sprintf(" — nonce %d had been mined on an earlier head, a reorg lowered the account nonce and the re-injection left the hole", fs[i].Gap)
 		}
